@@ -163,6 +163,12 @@ def in_child(fn, arg, timeout_s=900):
         code = 0
         try:
             os.close(r)
+            try:  # native libraries (LAPACK xerbla) write to fd 1 directly: keep the check's stdout for verdict lines only
+                dn = os.open(os.devnull, os.O_WRONLY)
+                os.dup2(dn, 1)
+                os.close(dn)
+            except OSError:
+                pass
             try:  # a runaway workload gets a MemoryError instead of inviting the OOM killer
                 import resource
 
